@@ -316,7 +316,13 @@ pub fn run(ctx: &Ctx) -> i32 {
                     let bytes = match (src == Fmt::Yaml && sp == 2 && i % 3 == 0, std::str::from_utf8(&bytes)) {
                         (true, Ok(t)) => {
                             acc.count("yaml_spelled_in_utf16_or_utf32");
-                            crate::c07::ENCS[rng.below(4)].encode(t, true)
+                            // without a byte order mark only where YAML allows it: an ASCII first character
+                            let starts_ascii = t.chars().next().map(|c| c.is_ascii() && c != '\0').unwrap_or(false);
+                            let bom = !starts_ascii || rng.chance(1, 2);
+                            if !bom {
+                                acc.count("yaml_spelled_in_utf16_or_utf32_without_bom");
+                            }
+                            crate::c07::ENCS[rng.below(4)].encode(t, bom)
                         }
                         _ => bytes,
                     };
@@ -369,7 +375,7 @@ pub fn run(ctx: &Ctx) -> i32 {
             extra: serde_json::Map::new(),
             exhaustive: false,
             min_distinct: 200,
-            must_reach: vec![("heavy_documents".into(), 10), ("detected_runs".into(), 100), ("class_lookalike_strings".into(), 50), ("class_float_values".into(), 50), ("shared_translator_batches".into(), 1000), ("yaml_spelled_in_utf16_or_utf32".into(), 500), ("shared_translator_batches_with_two_detections".into(), 100)],
+            must_reach: vec![("heavy_documents".into(), 10), ("detected_runs".into(), 100), ("class_lookalike_strings".into(), 50), ("class_float_values".into(), 50), ("shared_translator_batches".into(), 1000), ("yaml_spelled_in_utf16_or_utf32".into(), 500), ("yaml_spelled_in_utf16_or_utf32_without_bom".into(), 100), ("shared_translator_batches_with_two_detections".into(), 100)],
         },
         acc,
     )
